@@ -15,7 +15,7 @@ def family(name):
 
 @family("xfer")
 def fam_xfer(seed, n):
-    return [scen.random_transfer(seed, i, fam="xfer", lossy=True) for i in range(n)]
+    return [scen.bursty_transfer(seed, i) if i % 4 == 3 else scen.random_transfer(seed, i, fam="xfer", lossy=True) for i in range(n)]
 
 @family("xfer_clean")
 def fam_xfer_clean(seed, n):
@@ -39,7 +39,7 @@ def fam_many(seed, n):
 
 @family("backlog")
 def fam_backlog(seed, n):
-    return [scen.backlog_script(seed, i) for i in range(n)]
+    return [scen.accept_abandon_script(seed, i) if i % 2 else scen.backlog_script(seed, i) for i in range(n)]
 
 @family("hostile")
 def fam_hostile(seed, n):
